@@ -105,9 +105,8 @@ class BatcherRoles:
         for f in [s for s in u.functions() if s.enclosing_class() is cls]:
             g = build(f, p)
             for n in g.nodes:
-                if n.kind == 'for_iter' and n.meta.get('is_async'):
-                    it = resolve(g, n, n.ast.iter)
-                    if isinstance(it, ast.Call) and self_attr(it.func) == 'func':
+                if n.kind == 'for_iter':
+                    if _batch_iter_call(g, n)[0] is not None:
                         self.process = f
                 if n.kind == 'call' and call_name(g, n.ast) == 'asyncio.wait_for' and f is not self.call:
                     self.assemble = f
@@ -214,10 +213,10 @@ class BatcherRoles:
         self.gdisp = build(self.dispatch, p, inline_methods=True, inline_module_helpers=True)
         # in PROCESS: BATCHCALL loop, BATCHFUTS dict
         g = self.gproc
-        self.batchcall = next(n for n in g.nodes if n.kind == 'for_iter' and n.meta.get('is_async')
-                              and isinstance(resolve(g, n, n.ast.iter), ast.Call) and self_attr(resolve(g, n, n.ast.iter).func) == 'func')
-        self.batchcall_iter = self.batchcall.ast.iter if isinstance(self.batchcall.ast.iter, ast.Call) \
-            else resolve(g, self.batchcall, self.batchcall.ast.iter, depth=1)
+        self.batchcall = next(n for n in g.nodes if n.kind == 'for_iter' and _batch_iter_call(g, n)[0] is not None)
+        bc_, self.batch_wrapper = _batch_iter_call(g, self.batchcall)
+        self.batchcall_iter = self.batchcall.ast.iter if isinstance(self.batchcall.ast.iter, ast.Call) and self.batch_wrapper is None \
+            else bc_ if self.batch_wrapper is not None else resolve(g, self.batchcall, self.batchcall.ast.iter, depth=1)
         self.func_calls = [n for n in g.nodes if n.kind == 'call' and (self_attr(n.ast.func) == 'func' or self_attr(resolve(g, n, n.ast.func)) == 'func')]
         tgt = self.batchcall.ast.target
         self.kvar = self.rvar = None
@@ -241,6 +240,30 @@ class BatcherRoles:
                               'PROCESS': self.process.qualname, 'ASSEMBLE': self.assemble.qualname,
                               'DISPATCH': self.dispatch.qualname, 'BATCHFUTS': self.batchfuts,
                               'key/result vars': [self.kvar, self.rvar]}
+
+
+def _batch_iter_call(g, n):
+    """The `self.func(...)` call whose value the async for at node *n* iterates, and how it got there: (call, None) when the
+    loop iterates the call's value itself (directly or through locals); (call, wrapper expression) when the loop iterates a
+    name bound by `async with WRAP(self.func(...)) as name`."""
+    it = resolve(g, n, n.ast.iter)
+    if isinstance(it, ast.Call) and self_attr(it.func) == 'func' and n.meta.get('is_async'):
+        return it, None
+    if not n.meta.get('is_async'):
+        # a plain `for` over the results collected first: `results = [kr async for kr in self.func(args)]`
+        if isinstance(it, ast.ListComp) and len(it.generators) == 1 and it.generators[0].is_async and not it.generators[0].ifs \
+                and isinstance(it.generators[0].iter, ast.Call) and self_attr(it.generators[0].iter.func) == 'func':
+            return it.generators[0].iter, it
+        return None, None
+    if isinstance(it, ast.Name):
+        for w in ast.walk(g.scope.node):
+            if isinstance(w, (ast.With, ast.AsyncWith)):
+                for item in w.items:
+                    if isinstance(item.optional_vars, ast.Name) and item.optional_vars.id == it.id:
+                        inner = [x for x in ast.walk(item.context_expr) if isinstance(x, ast.Call) and self_attr(x.func) == 'func']
+                        if inner and item.context_expr is not inner[0]:
+                            return inner[0], item.context_expr
+    return None, None
 
 
 def _future_vars(r: 'BatcherRoles') -> Set[str]:
@@ -388,6 +411,39 @@ def _not_ise(e: Edge) -> bool:
 # C04
 # ---------------------------------------------------------------------------
 
+def _rule_iterable_use(ctx: Ctx, r: 'BatcherRoles', rule: str) -> None:
+    g = r.gproc
+    ctx.rule(rule, 'the value the batch function returns is only iterated by the delivery loop, result by result (it is an AsyncIterable, nothing more is promised; nothing is held back)', 1)
+    # who may touch the batch function's return value: the delivery loop's `async for` and nothing else - a finaliser
+    # (`aclosing(...)`, `.aclose()`), `anext`, `.asend` ... need an async *generator* and fail with AttributeError /
+    # TypeError on a plain AsyncIterable, and that error replaces the batch function's outcome for the callers
+    others_ = []
+    for fc in r.func_calls:
+        par_ = parent(fc.ast)
+        if isinstance(par_, ast.Assign) and len(par_.targets) == 1 and isinstance(par_.targets[0], ast.Name):
+            nm_ = par_.targets[0].id
+            host_ = par_
+            while host_ is not None and not isinstance(host_, (ast.FunctionDef, ast.AsyncFunctionDef)):
+                host_ = parent(host_)
+            uses_ = [x for x in ast.walk(host_ or r.process.node) if isinstance(x, ast.Name) and x.id == nm_ and isinstance(x.ctx, ast.Load)]
+            others_ += [(fc, parent(x)) for x in uses_ if not (isinstance(parent(x), ast.AsyncFor) and parent(x).iter is x)]
+        elif not (isinstance(par_, ast.AsyncFor) and par_.iter is fc.ast):
+            others_.append((fc, par_))
+    for fc, use_ in others_:
+        if isinstance(use_, ast.comprehension):
+            ctx.violation(rule, f'{norm(fc.ast)} is drained into a collection before anything is delivered', g.loc(fc),
+                          'results are held back until the batch function is through: a caller whose result was yielded before the batch '
+                          'function raised gets that exception instead of its value, and every caller stays pending (and cancellable) for '
+                          'the whole batch', construct=construct_key(r.process.qualname, 'results buffered'))
+            continue
+        ctx.violation(rule, f'{norm(fc.ast)} is handed to {norm(use_)[:80]}', g.loc(fc),
+                      'the batch function\'s return value is used as more than an AsyncIterable: with a plain async iterator (no aclose / asend) '
+                      'the wrapper\'s own error replaces the outcome the callers should get',
+                      construct=construct_key(r.process.qualname, 'batch iterable used otherwise', use_))
+    if not others_:
+        ctx.holds(rule, f'{len(r.func_calls)} call(s) of the batch function: the value is the iterable of the delivery loop only', g.loc(r.batchcall))
+
+
 def c04(ctx: Ctx) -> None:
     r = BatcherRoles(ctx)
     from .common import rule_unbound
@@ -404,6 +460,7 @@ def c04(ctx: Ctx) -> None:
     ctx.rule('C04-B8', 'the dispatcher spawns the batch task, never awaits it and never returns; the semaphore is taken with async with', 3)
     ctx.rule('C04-B10', 'the futures callers share live in a strong dict owned by the batcher instance (= C11-R6)', 1)
     _rule_retention_store(ctx, r, 'C04-B10')
+    _rule_iterable_use(ctx, r, 'C04-B11')
     where = g.loc(r.batchcall)
     if r.kvar is None or r.batchfuts is None:
         ctx.violation('C04-B1', 'results are not matched through a per-batch key->future dict', where,
@@ -556,6 +613,25 @@ def c04(ctx: Ctx) -> None:
     pops = [n for n in body if n.kind == 'call' and isinstance(n.ast.func, ast.Attribute) and n.ast.func.attr == 'pop'
             and isinstance(n.ast.func.value, ast.Name) and n.ast.func.value.id == r.batchfuts]
     dels = [n for n in body if n.kind == 'del_sub' and isinstance(n.ast.value, ast.Name) and n.ast.value.id == r.batchfuts]
+    # ... and a future taken out of the dict is answered there and then: once it has left the dict no sweep will reach it, so a
+    # path that skips the completion (`if key in self._abandoned: continue`) leaves its caller - and whoever shares the key -
+    # pending for ever.  Only the future's own state (done() / cancelled()) may excuse the completion.
+    def _done_edge(e: Edge) -> bool:
+        t = e.src.meta.get('test') if e.src.kind == 'branch' else None
+        if t is None:
+            return False
+        neg = False
+        while isinstance(t, ast.UnaryOp) and isinstance(t.op, ast.Not):
+            t, neg = t.operand, not neg
+        if isinstance(t, ast.Call) and isinstance(t.func, ast.Attribute) and t.func.attr in ('done', 'cancelled') and not t.args:
+            return e.label == ('false' if neg else 'true')
+        return False
+    for pp in pops:
+        st_ = [e for e in g.succ[pp.id] if e.label != 'exc']
+        wpop = must_pass(g, [], [r.batchcall, g.exit], body_completes, start_edges=st_, edge_ok=lambda e: e.label != 'exc' and not _done_edge(e))
+        ctx.check('C04-B5', f'{norm(pp.ast)}: the future taken out of the dict is completed in the same iteration', g.loc(pp), wpop is None,
+                  'popped -> completed (unless already done)', 'a future leaves the per-batch dict without being answered: no sweep can reach it any '
+                  'more, its caller waits for ever', witness=render(g, wpop), construct=construct_key(r.process.qualname, 'popped unanswered'))
     ctx.check('C04-B6', f'answered futures leave {r.batchfuts}: {[norm(x.ast) for x in pops + dels]}', where, bool(pops or dels),
               'pop/del before the sweeps', 'answered futures stay in the dict: the sweeps complete them a second time',
               construct=construct_key(r.process.qualname, 'answered stays'))
@@ -702,6 +778,8 @@ def c09(ctx: Ctx) -> None:
     ctx.rule('C09-R2', 'every completion of a caller future is guarded by its state, or no await can cancel it (R1)', 3)
     ctx.rule('C09-R3', 'no completion that may raise lies inside the try whose handler fans the batch failure out, nor unprotected inside that handler', 1)
     ctx.rule('C09-R5', 'the dispatcher keeps serving (= C04-B8): spawns, never awaits, never returns', 3)
+    # R6 (= C04-B11): a result held back keeps its caller pending, and cancellable, for the rest of the batch
+    _rule_iterable_use(ctx, r, 'C09-R6')
     # R1
     shared = _future_vars(r)
     r1_ok = True
